@@ -849,6 +849,29 @@ func (w *world) dt() int64 {
 	return 1
 }
 
+// edgeStep: a block exactly at, just before and just after the end of a transaction's validity
+func (w *world) edgeStep() {
+	o := w.rng.Range(1, 3)
+	dt := int64(1)
+	var k int
+	switch w.rng.Intn(3) {
+	case 0:
+		d := int64(w.rng.Range(1, 3))
+		k = w.newTx(txSpec{owner: o, exp: "time", d: d, fee: "ok"})
+		dt = d + int64(w.rng.Range(-1, 1))
+	case 1:
+		k = w.newTx(txSpec{owner: o, exp: "height", d: int64(w.rng.Range(0, 1)), fee: "ok"})
+	default:
+		ds := []int64{w.low, w.low + 1, -w.high, -w.high - 1}
+		k = w.newTx(txSpec{owner: o, exp: "txheight", d: hlib.Pick(w.rng, ds), fee: "ok"})
+	}
+	if w.rng.Chance(1, 3) {
+		w.self(dt, []int{k, w.plain()})
+	} else {
+		w.peer(w.tipNode(), dt, []int{k})
+	}
+}
+
 func (w *world) randomStep(allowForgery bool) {
 	switch w.rng.Intn(20) {
 	case 0, 1, 2, 3, 4:
@@ -858,9 +881,11 @@ func (w *world) randomStep(allowForgery bool) {
 		for i := 0; i < n; i++ {
 			idx = append(idx, w.validNow())
 		}
-		w.peer(w.tipNode(), int64(w.rng.Range(1, 3)), idx)
-	case 5, 6, 7, 8:
+		w.peer(w.tipNode(), hlib.Pick(w.rng, []int64{1, 1, 1, 2, 3, 1, 2, 0, -1}), idx)
+	case 5, 6, 7:
 		w.peer(w.tipNode(), w.dt(), w.mixed(w.rng.Range(1, 3), false))
+	case 8:
+		w.edgeStep()
 	case 9, 10, 11, 12, 13:
 		w.self(w.dt(), w.mixed(w.rng.Range(1, 4), true))
 	case 14, 15:
@@ -1053,6 +1078,71 @@ func scenarioReorg(w *world) {
 	}
 }
 
+// reorg-window: a TxHeight transaction x sits exactly low+high blocks below the tip, at the first
+// height of its window; a side branch replaces the tip (or the last two blocks) with a block that
+// carries x again at the last height of its window.  Disconnecting the tip must bring x's block
+// back into the cache window.
+func scenarioReorgWindow(w *world) {
+	w.funding()
+	top := int64(w.rng.Range(13, 14))
+	h0 := top - w.low - w.high
+	for w.tipNode().B.Height < h0-1 {
+		w.peer(w.tipNode(), 1, []int{w.plain()})
+	}
+	x := w.newTx(txSpec{owner: w.rng.Range(1, 3), exp: "txheight", d: w.low, fee: "ok"})
+	y := -1
+	w.peer(w.tipNode(), 1, []int{x})
+	for w.tipNode().B.Height < top {
+		idx := []int{w.plain()}
+		if w.tipNode().B.Height == top-1 && w.rng.Chance(1, 2) {
+			// a TxHeight transaction in the block that will be replaced: allowed again afterwards
+			y = w.newTx(txSpec{owner: 1, exp: "txheight", d: int64(w.rng.Range(0, int(w.low))), fee: "ok"})
+			idx = append(idx, y)
+		}
+		w.peer(w.tipNode(), 1, idx)
+	}
+	trunk := w.ancestors(w.tip)
+	back := w.rng.Range(1, 2)
+	par := w.node(trunk[back])
+	for par.B.Height <= top && par.Good {
+		idx := []int{w.plain()}
+		if par.B.Height == top-1 {
+			switch w.rng.Intn(4) {
+			case 0:
+				idx = []int{x}
+			case 1:
+				idx = append(idx, x)
+			case 2:
+				if y >= 0 {
+					idx = append(idx, y)
+				}
+			}
+		}
+		n := w.build(par, 1, idx)
+		w.note("side block %d on %d (height %d) txs %v", n.ID, par.ID, n.B.Height, n.Idx)
+		if w.deliver(n) != 0 {
+			break
+		}
+		par = n
+	}
+	for i := w.rng.Range(1, 3); i > 0; i-- {
+		switch w.rng.Intn(4) {
+		case 0:
+			w.peer(w.tipNode(), 1, []int{x})
+		case 1:
+			if y >= 0 {
+				w.peer(w.tipNode(), 1, []int{y})
+			} else {
+				w.self(1, []int{x, w.plain()})
+			}
+		case 2:
+			w.self(1, []int{x, w.plain()})
+		default:
+			w.peer(w.tipNode(), 1, []int{w.validNow()})
+		}
+	}
+}
+
 // ---------- main ----------
 
 func runCase(o *hlib.Out, f *testnode.Chain33Mock, in caseIn) {
@@ -1083,6 +1173,8 @@ func runCase(o *hlib.Out, f *testnode.Chain33Mock, in caseIn) {
 		scenarioWindow(w)
 	case in.Kind == "reorg":
 		scenarioReorg(w)
+	case in.Kind == "reorg-window":
+		scenarioReorgWindow(w)
 	case strings.HasPrefix(in.Kind, "linear"):
 		scenarioLinear(w, w.rng.Range(6, 12), in.Kind == "linear-any")
 	default:
@@ -1109,14 +1201,14 @@ func main() {
 		runCase(o, f, in)
 		return
 	}
-	n, budget := 150, 55*time.Second
+	n, budget := 120, 50*time.Second
 	if opts.Thorough() {
-		n, budget = 4000, 40*time.Minute
+		n, budget = 3000, 30*time.Minute
 	}
 	if v := os.Getenv("HC28_N"); v != "" {
 		fmt.Sscan(v, &n)
 	}
-	kinds := []string{"linear", "window", "reorg", "linear", "forgery", "linear-any", "reorg", "window"}
+	kinds := []string{"linear", "window", "reorg", "linear", "forgery", "reorg-window", "linear-any", "reorg", "window"}
 	windows := [][2]int64{{2, 3}, {1, 1}, {2, 3}, {1, 2}, {3, 2}}
 	for i := 0; i < n; i++ {
 		if time.Since(start) > budget {
